@@ -121,6 +121,16 @@ func staticSetup() *staticEnv {
 		r.StaticFiles("/assets", e.root, "css")
 	})
 	delete(rux.GetGlobalVars(), "file")
+	// a root whose name holds a '$' followed by letters (a directory really named like that), secrets beside it: the name is
+	// a name, not a template
+	dollar := filepath.Join(tmp, "pub", "$assets")
+	os.MkdirAll(filepath.Join(dollar, "sub"), 0o755)
+	os.MkdirAll(filepath.Join(dollar, "lib.js"), 0o755)
+	for rel, m := range e.markers {
+		write("pub/$assets/"+rel, m)
+	}
+	mk("css-dollar", func(r *rux.Router) { r.StaticFiles("/assets", dollar, "css") })
+	mk("dir-dollar", func(r *rux.Router) { r.StaticDir("/assets", dollar) })
 	// a caching router with a tiny cache and a SECOND mount (another URL prefix, the parent directory as its root): requests
 	// for the other mount come in between; what /assets serves is still confined to its own root
 	e.routers["css-cache2"] = newRouter(rux.CachingWithNum(2))
@@ -151,7 +161,7 @@ type naiveFS struct{ root string }
 func (n naiveFS) Open(name string) (http.File, error) { return os.Open(filepath.Join(n.root, name)) }
 
 // staticTwin: handlers that must answer exactly like another one (same files, configured in another way)
-var staticTwin = map[string]string{"dir-relative": "dir", "dir-dotdot": "dir", "css-relative": "css", "css-two-roots": "css", "dir-late": "dir", "css-late": "css", "css-globalfile": "css", "css-cache2": "css"}
+var staticTwin = map[string]string{"dir-relative": "dir", "dir-dotdot": "dir", "css-relative": "css", "css-two-roots": "css", "dir-late": "dir", "css-late": "css", "css-globalfile": "css", "css-cache2": "css", "css-dollar": "css", "dir-dollar": "dir"}
 
 func staticReplay(s *Summary, raw json.RawMessage) {
 	var c staticCase
@@ -232,7 +242,7 @@ func staticReplay(s *Summary, raw json.RawMessage) {
 			}
 			if vi != 0 {
 				// precision is only judged on the request as the model describes it
-				if (name == "css" || name == "cssjs" || name == "css-relative" || name == "css-late" || name == "css-globalfile" || name == "css-cache2" || name == "css-nested") && served != "" {
+				if (name == "css" || name == "cssjs" || name == "css-relative" || name == "css-late" || name == "css-globalfile" || name == "css-cache2" || name == "css-nested" || name == "css-dollar") && served != "" {
 					ok := strings.HasSuffix(served, ".css") || (name == "cssjs" && strings.HasSuffix(served, ".js"))
 					if !ok {
 						s.mismatch(desc("extension", "served "+served+" which does not have an allowed extension"), c)
@@ -244,7 +254,7 @@ func staticReplay(s *Summary, raw json.RawMessage) {
 			if name == "css" || name == "cssjs" {
 				model = c.Files[name]
 			}
-			if name == "css-relative" || name == "css-late" || name == "css-globalfile" || name == "css-cache2" || name == "css-nested" {
+			if name == "css-relative" || name == "css-late" || name == "css-globalfile" || name == "css-cache2" || name == "css-nested" || name == "css-dollar" {
 				model = c.Files["css"]
 			}
 			if name == "css-two-roots" {
@@ -260,7 +270,7 @@ func staticReplay(s *Summary, raw json.RawMessage) {
 			default:
 				// a directory may be listed or redirected, index.html may be served for it; otherwise no file content
 				idx := strings.TrimPrefix(strings.Join(model.Path, "/")+"/index.html", "/")
-				if served != "" && !(model.Kind == "dir" && served == idx && name != "css" && name != "cssjs" && name != "css-relative" && name != "css-late" && name != "css-globalfile" && name != "css-cache2" && name != "css-nested") {
+				if served != "" && !(model.Kind == "dir" && served == idx && name != "css" && name != "cssjs" && name != "css-relative" && name != "css-late" && name != "css-globalfile" && name != "css-cache2" && name != "css-nested" && name != "css-dollar") {
 					s.mismatch(desc("precision", fmt.Sprintf("answered %d with the content of %s, the model serves %s", w.Code, served, model.Kind)), c)
 				}
 			}
